@@ -76,17 +76,24 @@ PROPS = {
     },
     "C17": {
         "units": ["c17_sibling_alts"],
+        "kani": [
+            {"name": "c17_scorer", "crate": "c17_scorer", "tmpl": "lib.rs.tmpl", "harnesses": ["did_you_mean_is_first_best_above_threshold"], "bounded": "at most 4 candidate names (unwind 6)"},
+            {"name": "c17_add_alts", "crate": "c17_scorer", "tmpl": "add_alts.rs.tmpl", "harnesses": ["add_alts_only_improves"], "bounded": "loop-free over full-domain symbolic scores: complete, not bounded"},
+        ],
+        "bounded_units": ["c17_scorer::did_you_mean_is_first_best_above_threshold: Kani, at most 4 candidates, unwinding assertions on (BOUNDED stand-in, not counted as proved beyond the bound)",
+                          "c17_add_alts::add_alts_only_improves: Kani, loop-free over all f64 scores in [0,1] (complete)"],
         "gen": [{"corpus": "structs", "mode": "full"}, {"corpus": "enums", "mode": "full"}, {"corpus": "elems", "mode": "full"}],
         "classes": r"assertion failed|post-condition of closure",
         "include_text": r"strs\(__alts@\)|e_sibling_alts",
-        "classes_text": r"(postcondition|invariant|termination).* :: .*(e_sib|sib_upto|add_sibling_alts)",
+        "classes_text": r"(postcondition|invariant|termination).* :: .*(e_sib|sib_upto|add_sibling_alts)|kani harness failed",
         "level_text": "In every emitted parser of the corpus the literal candidate list passed to unknown_field_with_alts is proved equal to the names addressable at that position "
                       "(non-skip, non-flatten fields; non-skipped variants), and the names passed to add_sibling_alts_for_unknown_field on a flatten result are the parent's addressable names; "
                       "suggestions are attached only by those two calls (oracle equality under C02/C03).",
-        "level_note": "Proof per program; programs sampled. The scorer (did_you_mean / add_alts, f64) is outside Verus: planned Kani units; dym_spec is uninterpreted here.",
+        "level_note": "Proof per program; programs sampled. The f64 scorer is outside Verus (no float order axioms): did_you_mean (first best above 0.8; BOUNDED to <= 4 candidates) and add_alts "
+                      "(strict improvement only; loop-free, complete) are Kani harnesses on the verbatim function text with strsim::jaro_winkler / did_you_mean replaced by symbolic stubs; dym_spec stays uninterpreted in the Verus units.",
         "design_ref": "DESIGN.md section 6 C17",
         "assumptions": "L3",
-        "not_covered": ["did_you_mean threshold / best-match (f64: Kani unit pending)", "ErrorUnknownField::add_alts strict-improvement (Kani unit pending)", "feature `suggestions` off"],
+        "not_covered": ["did_you_mean beyond 4 candidates (bounded Kani stand-in)", "feature `suggestions` off (the cfg(not(suggestions)) stub returns None by inspection; not run)", "the similarity function itself (strsim)"],
     },
     "C18": {
         "units": ["c18_shape"],
